@@ -44,7 +44,63 @@ unsafe fn hex(buf: &mut [u8; 20], mut v: u64) {
     buf[19] = b'\n';
 }
 
+/// path of the side-car file that records a crash of the main process (set by main)
+pub static mut CRASH_PATH: [u8; 512] = [0; 512];
+pub static MAIN_PID: AtomicU64 = AtomicU64::new(0);
+
+/// A fault nobody can explain while the crate under test is being driven is data, like a panic:
+/// the main process leaves a one-line record next to the trace and exits with status 3; the
+/// orchestrator appends it to the trace as a `crash` event, which no specification accepts.
+unsafe fn record_crash(sig: i32, code: i32, addr: u64, rip: u64) {
+    if MAIN_PID.load(Ordering::Relaxed) != libc::getpid() as u64 || CRASH_PATH[0] == 0 {
+        return;
+    }
+    let fd = libc::open(core::ptr::addr_of!(CRASH_PATH) as *const libc::c_char, libc::O_CREAT | libc::O_WRONLY | libc::O_TRUNC, 0o644);
+    if fd < 0 {
+        return;
+    }
+    let mut line = [0u8; 160];
+    let mut n = 0usize;
+    let mut put = |bytes: &[u8], n: &mut usize| {
+        for &b in bytes {
+            if *n < 159 {
+                line[*n] = b;
+                *n += 1;
+            }
+        }
+    };
+    put(b"{\"op\":\"crash\",\"signal\":", &mut n);
+    let mut dec = |v: u64, n: &mut usize, put: &mut dyn FnMut(&[u8], &mut usize)| {
+        let mut d = [0u8; 20];
+        let mut k = 20;
+        let mut x = v;
+        loop {
+            k -= 1;
+            d[k] = b'0' + (x % 10) as u8;
+            x /= 10;
+            if x == 0 {
+                break;
+            }
+        }
+        put(&d[k..], n);
+    };
+    dec(sig as u64, &mut n, &mut put);
+    put(b",\"code\":", &mut n);
+    dec(code as u32 as u64, &mut n, &mut put);
+    put(b",\"addr_hi\":", &mut n);
+    dec(addr >> 32, &mut n, &mut put);
+    put(b",\"addr_lo\":", &mut n);
+    dec(addr & 0xffff_ffff, &mut n, &mut put);
+    put(b",\"rip_lo\":", &mut n);
+    dec(rip & 0xffff_ffff, &mut n, &mut put);
+    put(b"}\n", &mut n);
+    libc::write(fd, line.as_ptr() as *const libc::c_void, n);
+    libc::close(fd);
+    libc::_exit(3);
+}
+
 unsafe fn die_info(sig: i32, code: i32, addr: u64, rip: u64) -> ! {
+    record_crash(sig, code, addr, rip);
     let msg = b"xv: unexplained fault (sig, code, addr, rip):\n";
     libc::write(2, msg.as_ptr() as *const libc::c_void, msg.len());
     let mut b = [0u8; 20];
